@@ -548,7 +548,9 @@ class FileSession(Session):
             # 'session-<id>.lock' is the lock file of session <id>,
             # not a session: never adopt such an id from a cookie.
             return False
-        return os.path.exists(path)
+        # Only a regular file is a stored session; an id that names a
+        # directory below storage_path must not be adopted.
+        return os.path.isfile(path)
 
     def _load(self, path=None):
         assert self.locked, ('The session load without being locked.  '
